@@ -12,12 +12,14 @@ conditions of the two simulations ("the answer spells the new text", "the answer
 reading", "no `diff:rename` yet") are derived from `C17_each_node_changed_once` through the invariant of
 `Proofs/JInv.lean` ... `JRun.lean`: a node of the working tree carries a `diff:rename` attribute, a marked text or a
 marked tail only if the patcher node it stands for was hit by such an action before.  What is still assumed is stated
-on the inputs: `L` clean with texts of at most `TEXT_MAX` = 27000 characters, `R` made of elements with fit texts and
-distinct attribute names outside the `diff:` namespace, `M` a good matching, and new texts of the script of at most
-`TEXT_MAX` characters (the line mode of the engine model is proved below the surrogate range only, C16).
+on the inputs: `L` clean with texts of at most `TEXT_MAX` = 27000 characters, `R` made of elements with fit texts of at
+most `TEXT_MAX` characters and distinct attribute names outside the `diff:` namespace, `M` a good matching (the line
+mode of the engine model is proved below the surrogate range only, C16; that the texts of a differ script are texts and
+tails of right nodes is `Texts.scriptGen_texts`).
 -/
 import XmlDiffModel.Props.C09
-import XmlDiffModel.Proofs.DifferE
+import XmlDiffModel.Proofs.DifferE2
+import XmlDiffModel.Proofs.JRun2
 
 namespace XmlDiffModel
 open XmlDiffModel.Acc XmlDiffModel.Rej XmlDiffModel.Along
@@ -28,13 +30,12 @@ theorem C09_differ_script_engine (bis : Dmp.Bisect) (qn : QName) (cfg : Cfg) (L 
     (hclean : CleanT L) (hshort : Names.AllP ShortP L) (hL : (Tree.ids L).Nodup) (hRn : (Tree.ids R).Nodup)
     (hdisj : ∀ i ∈ Tree.ids L, i ∉ Tree.ids R)
     (hfL : ∀ i ∈ Tree.ids L, i < fresh) (hfR : ∀ i ∈ Tree.ids R, i < fresh) (hM : Chw.GoodMatching L R M)
-    (hR : ∀ x ∈ Tree.bfs R, (keys x.payload.attrs).Nodup ∧ XClean (fun k => isDiffKey k = false) x)
-    (hsh : ∀ a ∈ script, ShortTexts a)
+    (hR : ∀ x ∈ Tree.bfs R, (keys x.payload.attrs).Nodup ∧ XClean (fun k => isDiffKey k = false) x ∧ ShortP x.payload)
     (h : scriptGen qn cfg L R M fresh = .ok (script, final)) :
     ∃ s' σ, runFmtE false bis qn (fstate0 L fresh ft segs w) script = .ok s' ∧
       acc (cln accS) s'.tree = MapId.mapId σ final ∧ MapId.InjOn σ (Tree.ids final) := by
-  obtain ⟨s', σ, h1, h2, h3, _⟩ := differ_script_engine bis qn cfg L R M fresh script final ft segs w hclean hshort hL
-    hRn hdisj hfL hfR hM hR hsh h
+  obtain ⟨s', σ, h1, h2, h3, _⟩ := differ_script_engine' bis qn cfg L R M fresh script final ft segs w hclean hshort hL
+    hRn hdisj hfL hfR hM hR h
   exact ⟨s', σ, h1, h2, h3⟩
 
 /-- **Rejecting every change of the formatted differ script gives the left document back** (structure, tags, texts;
@@ -44,12 +45,11 @@ theorem C10_differ_script_engine (bis : Dmp.Bisect) (qn : QName) (cfg : Cfg) (L 
     (hclean : CleanT L) (hshort : Names.AllP ShortP L) (hL : (Tree.ids L).Nodup) (hRn : (Tree.ids R).Nodup)
     (hdisj : ∀ i ∈ Tree.ids L, i ∉ Tree.ids R)
     (hfL : ∀ i ∈ Tree.ids L, i < fresh) (hfR : ∀ i ∈ Tree.ids R, i < fresh) (hM : Chw.GoodMatching L R M)
-    (hR : ∀ x ∈ Tree.bfs R, (keys x.payload.attrs).Nodup ∧ XClean (fun k => isDiffKey k = false) x)
-    (hsh : ∀ a ∈ script, ShortTexts a)
+    (hR : ∀ x ∈ Tree.bfs R, (keys x.payload.attrs).Nodup ∧ XClean (fun k => isDiffKey k = false) x ∧ ShortP x.payload)
     (h : scriptGen qn cfg L R M fresh = .ok (script, final)) :
     ∃ s', runFmtE false bis qn (fstate0 L fresh ft segs w) script = .ok s' ∧ rej s'.tree = bare L := by
-  obtain ⟨s', _, h1, _, _, h4⟩ := differ_script_engine bis qn cfg L R M fresh script final ft segs w hclean hshort hL
-    hRn hdisj hfL hfR hM hR hsh h
+  obtain ⟨s', _, h1, _, _, h4⟩ := differ_script_engine' bis qn cfg L R M fresh script final ft segs w hclean hshort hL
+    hRn hdisj hfL hfR hM hR h
   exact ⟨s', h1, h4⟩
 
 /-- The run-level statement behind both (any script, not only the differ's): with rename / text / tail targets
@@ -79,6 +79,22 @@ theorem C09_C10_engine_run (bis : Dmp.Bisect) (qn : QName) (script : List Action
   obtain ⟨s', σ, h1, r, _, h4⟩ := run_E bis qn script _ ⟨htok, hb, rfl⟩ hrok L fresh (fun x => x) r0 [] [] []
     (jall_init L hclean hshort) hst hpaths (by simpa using nR) (by simpa using nT) (by simpa using nA) p' hp
   exact ⟨s', σ, h1, r.eq, r.inj, by rw [h4]; exact rej_clean L hclean⟩
+
+/-- **What `format` hands to `render` for a differ script has no placeholder characters** - engine included: the
+handlers accept the script (C09 above), the maker state is still the one `__init__` built, `undo_element` on the root
+- `finalize` - succeeds for every sufficiently large fuel, and the tree it returns has no placeholder character in any
+text or tail. -/
+theorem C08_differ_script_engine (bis : Dmp.Bisect) (qn : QName) (cfg : Cfg) (L R : Tree) (M : List (Nat × Nat))
+    (fresh : Nat) (script : List Action) (final : Tree) (ft : List Str) (w : Bool)
+    (hclean : CleanT L) (hshort : Names.AllP ShortP L) (hL : (Tree.ids L).Nodup) (hRn : (Tree.ids R).Nodup)
+    (hdisj : ∀ i ∈ Tree.ids L, i ∉ Tree.ids R)
+    (hfL : ∀ i ∈ Tree.ids L, i < fresh) (hfR : ∀ i ∈ Tree.ids R, i < fresh) (hM : Chw.GoodMatching L R M)
+    (hR : ∀ x ∈ Tree.bfs R, (keys x.payload.attrs).Nodup ∧ XClean (fun k => isDiffKey k = false) x ∧ ShortP x.payload)
+    (h : scriptGen qn cfg L R M fresh = .ok (script, final)) :
+    ∃ s', runFmtE false bis qn (fstate0 L fresh ft [] w) script = .ok s' ∧ s'.ph = phInit [] ft ∧
+      ∃ r after, (∃ N, ∀ f, N ≤ f → undoElement f s'.ph diffElemList s'.tree = .ok (r, after)) ∧
+        Undo.PlainT s'.ph r :=
+  differ_script_plain bis qn cfg L R M fresh script final ft w hclean hshort hL hRn hdisj hfL hfR hM hR h
 
 private def exE (t : String) (tx tl : Option String) : Payload :=
   ⟨.elem, t.toList, [("k".toList, "1".toList)], tx.map String.toList, tl.map String.toList⟩
